@@ -186,17 +186,17 @@ Proof.
     apply IH. reflexivity.
 Qed.
 
-Lemma kernel_length s sp wl w hs v : kernel s sp wl w hs = Ok v -> length v = length hs.
+Lemma kernel_length s sp w hs v : kernel s sp w hs = Ok v -> length v = length hs.
 Proof.
   unfold kernel, steps_vals, const_all. intro H.
   destruct ((zlen w =? 0) || all_nan w); [inversion H; apply map_length|].
   destruct s.
-  - destruct (sp =? 1); [inversion H; apply map_length|].
+  - destruct (sp =? 1); [inversion H; apply map_length|]. cbv zeta in H.
     apply index_all_length in H. rewrite map_length in H. exact H.
-  - destruct (sp =? 1); [inversion H; apply map_length|].
+  - destruct (sp =? 1); [inversion H; apply map_length|]. cbv zeta in H.
     match type of H with (if ?c then _ else _) = _ => destruct c end; [|discriminate].
     apply index_all_length in H. rewrite map_length in H. exact H.
-  - destruct (wl =? 1); [inversion H; apply map_length|].
+  - destruct (zlen w <? 2); [inversion H; apply map_length|].
     destruct (hd None w); [|discriminate]. destruct (last w None); [|discriminate].
     inversion H. apply map_length.
 Qed.
@@ -276,76 +276,109 @@ Proof.
   cbn [somes flat_map app]. discriminate.
 Qed.
 
-(* the kernel on a complete, NaN-free window returns a number for every step - except the drift
-   strategy on a window of length 1 (see Refuted.v) *)
-Lemma kernel_finite s sp wl w hs v :
-  1 <= sp -> 1 <= wl -> zlen w = wl -> finite w -> sorted_lt hs -> all_pos hs ->
+Lemma finite_app (a b : list oq) : finite a -> finite b -> finite (a ++ b).
+Proof. intros Ha Hb x Hx. apply in_app_or in Hx. destruct Hx as [Hx|Hx]; [apply Ha|apply Hb]; exact Hx. Qed.
+
+(* the kernel on a NaN-free window returns a number for every step when the window holds a whole
+   season (seasonal last / seasonal mean) resp. two points (drift) - which is what every
+   configuration accepted by fit guarantees for out-of-sample forecasts (resolve_ok_bounds) *)
+Lemma kernel_finite s sp w hs v :
+  1 <= zlen w -> finite w -> sorted_lt hs -> all_pos hs ->
   match s with
-  | SLast => wl = (if sp =? 1 then 1 else sp)
-  | SMean => sp = 1 \/ sp <= wl
-  | SDrift => 2 <= wl
+  | SLast => 1 <= sp /\ zlen w = sp
+  | SMean => 1 <= sp /\ (sp = 1 \/ sp <= zlen w)
+  | SDrift => 2 <= zlen w
   end ->
-  kernel s sp wl w hs = Ok v -> finite v.
+  kernel s sp w hs = Ok v -> finite v.
 Proof.
-  intros Hsp Hwl Hlen Hf Hs Hp Hcfg H.
-  assert (Hne : w <> []) by (intro E; subst w; unfold zlen in Hlen; cbn [length] in Hlen; lia).
+  intros Hwl Hf Hs Hp Hcfg H.
+  assert (Hne : w <> []) by (intro E; subst w; unfold zlen in Hwl; cbn [length] in Hwl; lia).
   destruct s.
-  - destruct (Z.eq_dec sp 1) as [->|Hsp1].
+  - destruct Hcfg as [Hsp Hlen]. destruct (Z.eq_dec sp 1) as [->|Hsp1].
     + rewrite kernel_last in H. inversion H. intros x Hx. apply in_map_iff in Hx.
       destruct Hx as [h [<- _]]. apply finite_znth; [exact Hf|lia].
-    + destruct (sp =? 1) eqn:E; [lia|]. rewrite Hcfg in H, Hlen.
-      rewrite kernel_seasonal_last in H by (try assumption; lia). inversion H.
+    + rewrite kernel_seasonal_last in H by (try assumption; lia). inversion H.
       intros x Hx. apply in_map_iff in Hx. destruct Hx as [h [<- _]].
       pose proof (Z.mod_pos_bound (h - 1) sp ltac:(lia)). apply finite_znth; [exact Hf|lia].
-  - destruct (Z.eq_dec sp 1) as [->|Hsp1].
+  - destruct Hcfg as [Hsp Hc]. destruct (Z.eq_dec sp 1) as [->|Hsp1].
     + rewrite kernel_mean in H. inversion H. intros x Hx. apply in_map_iff in Hx.
       destruct Hx as [h [<- _]]. apply nanmean_finite; assumption.
-    + destruct Hcfg as [Hc|Hc]; [lia|].
+    + destruct Hc as [Hc|Hc]; [lia|].
       rewrite kernel_seasonal_mean in H by (try assumption; lia). inversion H.
       intros x Hx. apply in_map_iff in Hx. destruct Hx as [h [<- _]].
       unfold seasonal_mean_spec. apply nanmean_finite.
       * intros y Hy. apply Hf. eapply finite_sel. exact Hy.
-      * pose proof (Z.mod_pos_bound (wl - 1 + h) sp ltac:(lia)) as B.
-        apply (sel_nonempty _ w 0 ((wl - 1 + h) mod sp)); [lia|].
+      * pose proof (Z.mod_pos_bound (zlen w - 1 + h) sp ltac:(lia)) as B.
+        apply (sel_nonempty _ w 0 ((zlen w - 1 + h) mod sp)); [lia|].
         unfold congb. apply Z.eqb_eq. rewrite Zminus_mod, Zmod_mod, Z.sub_diag.
         apply Z.mod_0_l. lia.
   - destruct (znth w 0) as [a|] eqn:Ea; [|exfalso; revert Ea; apply finite_znth; [exact Hf|lia]].
-    destruct (znth w (wl - 1)) as [b|] eqn:Eb; [|exfalso; revert Eb; apply finite_znth; [exact Hf|lia]].
-    rewrite (kernel_drift sp wl w a b hs) in H by assumption. inversion H.
+    destruct (znth w (zlen w - 1)) as [b|] eqn:Eb;
+      [|exfalso; revert Eb; apply finite_znth; [exact Hf|lia]].
+    rewrite (kernel_drift sp w a b hs) in H by assumption. inversion H.
     intros x Hx. apply in_map_iff in Hx. destruct Hx as [h [<- _]]. discriminate.
 Qed.
 
 (* lifted to the fitted NaiveForecaster / PolynomialTrendForecaster, after any updates: finite
-   observations and an out-of-sample horizon give finite forecasts *)
+   observations and an out-of-sample horizon give finite forecasts - for EVERY configuration the
+   fit accepts (no exception left: drift on a single point and a seasonal mean over less than one
+   season are rejected by fit since 9814f9c / ae04e61) *)
 Lemma leaf_finite f train st h vals :
   finite (ys (obs st)) -> sorted_lt (to_relative (cutoff st) h) ->
   all_pos (to_relative (cutoff st) h) ->
-  match f with
-  | FNaive s sp wlo =>
-      1 <= sp /\ (forall w, wlo = Some w -> 1 <= w) /\ 1 <= zlen (ys train) /\
-      zlen (ys train) <= zlen (ys (obs st)) /\
-      ~ (s = SDrift /\ documented_wl s sp wlo (zlen (ys train)) = 1) /\
-      (s = SMean -> sp = 1 \/ sp <= documented_wl s sp wlo (zlen (ys train)))
-  | FPoly _ _ => True
-  end ->
+  1 <= zlen (ys train) <= zlen (ys (obs st)) ->
   leaf_values f train st h = Ok vals -> finite vals.
 Proof.
-  intros Hf Hs Hp Hcfg H. unfold leaf_values in H. destruct f as [s sp wlo|degree ic].
-  - destruct Hcfg as [Hsp [Hwlo [Hn [Hle [Hdrift Hmean]]]]].
-    destruct (resolve_wl s sp wlo (zlen (ys train))) as [wl|] eqn:Hres; [|discriminate].
-    apply resolve_ok in Hres. destruct Hres as [Hw [Hwn Hrej]].
+  intros Hf Hs Hp Hn H. unfold leaf_values in H. destruct f as [s sp wlo|degree ic].
+  - destruct (resolve_wl s sp wlo (zlen (ys train))) as [wl|] eqn:Hres; [|discriminate].
+    apply resolve_ok_bounds in Hres; [|lia]. destruct Hres as [Hwl Hcfg].
     rewrite predict_oos in H by exact Hp.
     destruct (to_relative (cutoff st) h) as [|r t] eqn:E; [inversion H; intros x []|].
-    assert (Hwl1 : 1 <= wl).
-    { subst wl. unfold documented_wl. destruct s; [destruct (sp =? 1); lia| |];
-        (destruct wlo as [w|]; [apply Hwlo; reflexivity|lia]). }
     destruct (window_last (ys (obs st)) wl ltac:(lia)) as [_ Hlen].
-    eapply (kernel_finite s sp wl _ (r :: t) vals); try eassumption.
+    apply (kernel_finite s sp (window (ys (obs st)) (zlen (ys (obs st)) - 1) wl) (r :: t) vals);
+      try assumption.
+    + lia.
     + apply finite_window. exact Hf.
-    + destruct s.
-      * subst wl. reflexivity.
-      * rewrite Hw. apply Hmean. reflexivity.
-      * assert (wl <> 1) by (intro E1; apply Hdrift; split; [reflexivity|congruence]). lia.
+    + rewrite Hlen. destruct s; lia.
   - destruct (poly_fit degree ic (ys train)); [|discriminate]. inversion H.
     intros x Hx. apply in_map_iff in Hx. destruct Hx as [r [<- _]]. discriminate.
+Qed.
+
+(* the same for a whole program: the observed series only grows and stays finite *)
+Lemma obs_grows : forall ups st,
+  zlen (ys (obs st)) <= zlen (ys (obs (fold_left update_state ups st))).
+Proof.
+  induction ups as [|b t IH]; intro st; [cbn [fold_left]; lia|].
+  cbn [fold_left]. specialize (IH (update_state st b)).
+  assert (zlen (ys (obs st)) <= zlen (ys (obs (update_state st b)))); [|lia].
+  unfold update_state. destruct (snd b) as [|x l]; [lia|].
+  cbn [obs ys]. rewrite zlen_app. pose proof (zlen_nonneg (x :: l)). lia.
+Qed.
+
+Lemma obs_finite : forall ups st, finite (ys (obs st)) ->
+  (forall b, In b ups -> finite (snd b)) ->
+  finite (ys (obs (fold_left update_state ups st))).
+Proof.
+  induction ups as [|b t IH]; intros st Hf Hb; [exact Hf|].
+  cbn [fold_left]. apply IH.
+  - unfold update_state. pose proof (Hb b (or_introl eq_refl)) as Hfb.
+    destruct (snd b) as [|x l]; [exact Hf|]. cbn [obs ys]. apply finite_app; assumption.
+  - intros b' Hb'. apply Hb. right. exact Hb'.
+Qed.
+
+Lemma run_finite f s ups refit h trace idx vals :
+  1 <= zlen (ys s) -> finite (ys s) -> (forall b, In b ups -> finite (snd b)) ->
+  sorted_lt (to_relative (cutoff (run_state s ups)) h) ->
+  all_pos (to_relative (cutoff (run_state s ups)) h) ->
+  model_run (Some f) s ups refit h = (trace, idx, Some (Ok vals)) -> finite vals.
+Proof.
+  intros Hn Hf Hb Hs Hp H. unfold model_run in H.
+  assert (Hv : leaf_values f (if refit then obs (run_state s ups) else s) (run_state s ups) h
+               = Ok vals) by (inversion H; reflexivity).
+  clear H.
+  pose proof (obs_grows ups (fit_state s)) as Hg. cbn [fit_state obs] in Hg.
+  pose proof (obs_finite ups (fit_state s) Hf Hb) as Hfo.
+  fold (run_state s ups) in Hg, Hfo.
+  eapply leaf_finite; [exact Hfo|exact Hs|exact Hp| |exact Hv].
+  destruct refit; lia.
 Qed.
